@@ -20,9 +20,9 @@ import random
 
 from vlib import Ob, run_all
 
-SHAPE = ["none", "export+data", "export+func", "import", "forward+local func"]   # per (module, name): see harness/C13/link_hist.c
-ABBR = ["-", "D", "F", "i", "w"]
-NONE, D, F, I, W = range(5)
+SHAPE = ["none", "export+data", "export+func", "import", "forward+local func", "export+data section of two items"]   # per (module, name): see harness/C13/link_hist.c
+ABBR = ["-", "D", "F", "i", "w", "S"]
+NONE, D, F, I, W, S = range(6)
 # step codes of the harness
 LOAD1, LOAD2, LOAD3, EXT_X, EXT_Y, LINK, LINK_RES = range(7)
 
@@ -30,7 +30,7 @@ LOAD1, LOAD2, LOAD3, EXT_X, EXT_Y, LINK, LINK_RES = range(7)
 # into fields; whole-array objects of 65 elements (the C14 workaround) are slow to assign (profiled: value-set update of every element
 # per store), so the field-sensitivity threshold is lowered instead and the data items live in an 8-element array
 FS_FLAGS = ["--max-field-sensitivity-array-size", "7"]
-FS_DEFS = ["H_ARR=8", "H_ND_MAX=16"]
+FS_DEFS = ["H_ARR=12", "H_ND_MAX=16"]
 
 
 def cfg_name(c):
@@ -49,12 +49,12 @@ def oa25():
 
 def table_cap(c):
     """Entries the module item table model needs (add_item leaves a tombstone for every export/forward replaced by a function)."""
-    return sum({NONE: 0, D: 1, F: 2, I: 1, W: 2}[v] for v in c) + 2 + 1
+    return sum({NONE: 0, D: 1, F: 2, I: 1, W: 2, S: 1}[v] for v in c) + 2 + 1
 
 
 LOOPS = {"harness#0": 4, "h_build_module#0": 3, "h_step_load#0": 3, "h_step_load#1": 3, "h_step_load#2": 3,
          "h_step_link#0": 4, "h_step_link#1": 3, "h_step_link#2": 4, "h_step_link#3": 3, "h_step_link#4": 4,
-         "MIR_load_module#0": 6, "load_bss_data_section#0": 3, "load_bss_data_section#1": 3,
+         "MIR_load_module#0": 8, "load_bss_data_section#0": 3, "load_bss_data_section#1": 3,
          "MIR_link#0": 6, "MIR_link#1": 7, "MIR_link#2": 6, "MIR_link#3": 7, "MIR_link#4": 6, "MIR_link#5": 7,
          "simplify_func#0": 1, "simplify_func#1": 1, "simplify_func#2": 1, "simplify_func#3": 1, "simplify_func#4": 1,
          "remove_unused_and_enumerate_labels#0": 1,
@@ -124,7 +124,7 @@ def additem_pin(name, kinds, wit, what):
 MULTISETS = [m for m in itertools.combinations_with_replacement(range(5), 3) if m != (NONE, NONE, NONE)]
 # quick: the multisets with an importer and a definition in all three modules (a module that is never loaded behaves as an absent one,
 # so these subsume the multisets in which a module is empty)
-CORE1 = [(D, D, I), (D, F, I), (F, F, I), (D, I, I), (F, I, I)]   # (D,I,W), (F,I,W) and all others: thorough (quick budget about 60 CPU-minutes)
+CORE1 = [(D, D, I), (D, F, I), (F, F, I), (D, I, I), (F, I, I), (S, D, I)]   # (D,I,W), (F,I,W) and all others: thorough (quick budget about 60 CPU-minutes)
 FOUR = [(D, NONE, I, NONE, F, I), (F, I, I, D, D, F)]   # hand-picked two-name configurations
 
 
@@ -141,6 +141,8 @@ def obligations(tier):
     # ---- concrete histories: reachability witnesses (each also checks every assertion on its history)
     obs += [
         pin_ob("pin.smoke", (D, 0, I, 0, 0, 0), 0, [LOAD1, LOAD2, LINK], ["END"], "load M1 (exports data x); load M2 (imports x); link"),
+        pin_ob("pin.section-export", (S, 0, I, 0, 0, 0), 0, [LOAD1, LOAD2, LINK], ["END"],
+               "load M1 (exports x, a data section of two items); load M2 (imports x); link -> the address of the section start"),
         pin_ob("pin.external", (0, 0, I, 0, 0, 0), 0, [EXT_X, LOAD2, LINK], ["EXT", "END"], "load_external x; load M2 (imports x); link"),
         pin_ob("pin.newer-export", (D, 0, I, 0, D, 0), 0, [LOAD1, LOAD3, LOAD2, LINK], ["NEWER", "END"],
                "load M1 (data x); load M3 (data x); load M2 (imports x); link -> M3's x"),
